@@ -21,7 +21,7 @@ fn sym_t() -> f64 {
 }
 
 /// One-slice tables holding real table `K` (mode `M` = 0) or a window of its
-/// consecutive knots (`M` = 1 first 12, 2 last 12, 3 the 48 around the middle),
+/// consecutive knots (`M` = 1 first 8, 2 last 8, 3 the 48 around the middle),
 /// with its real z bound. A window of consecutive knots of a table is itself a
 /// table; inside the window the real lookup brackets `t` with the same two
 /// knots as in the full table. Windows are separate statics so that the lookup
